@@ -14,7 +14,7 @@ import os, sys, json, tempfile, shutil, struct, time
 import vlib
 import frames_lib as fl
 
-THEOREMS = ['C10_prefix', 'C10_fails_at_first_deviation', 'C10_deviating_frame_rejected', 'C10_nonces_distinct',
+THEOREMS = ['C10_prefix', 'C10_fails_at_first_deviation', 'C10_deviating_frame_rejected', 'C10_oversize_length_panics', 'C10_nonces_distinct',
             'C10_no_nonce_reuse', 'C10_no_key_no_command', 'C10_reflection_only_no_command', 'C10_segmentation',
             'C14_stream', 'C10_refuted_without_bump', 'C10_code_advances_counter', 'C10_buffer_matches_code',
             'C10_premises_satisfiable']
